@@ -106,6 +106,19 @@ struct Scanned {
 static void count_and_scan(const char *text, bool msg, Scanned &s)
 {
     s.count = msg ? rtosc_count_printed_arg_vals_of_msg(text) : rtosc_count_printed_arg_vals(text);
+    if(msg && s.count == 0) {
+        // a message without arguments: the address is scanned, no value is written
+        s.av.assign(8, rtosc_arg_val_t());
+        for(auto &x : s.av) { memset(&x, 0, sizeof(x)); x.type = SENT; }
+        s.strbuf.assign(strlen(text) + 64, 0);
+        std::vector<char> adr(strlen(text) + 2, 0);
+        s.rd = (long)rtosc_scan_message(text, adr.data(), adr.size(), s.av.data(), 0, s.strbuf.data(), s.strbuf.size());
+        s.addr = adr.data();
+        long w = 0;
+        for(size_t i = 0; i < s.av.size(); ++i) if(s.av[i].type != SENT) w = (long)i + 1;
+        s.nwritten = w;
+        return;
+    }
     if(s.count <= 0 || s.count > 100000) return;
     size_t n = (size_t)s.count;
     s.av.assign(n + 8, rtosc_arg_val_t());
